@@ -61,6 +61,7 @@ var plans = []Plan{
 			{Test: "TestC19_StoreLinearizable", Shards: [2]int{4, 8}, Checks: [2]int{400, 8000}, Timeout: [2]int{600, 3000}},
 			{Test: "TestC19_Interleavings", Shards: [2]int{12, 16}, Timeout: [2]int{900, 3400}},
 			{Test: "TestC19_RaceStress", Shards: [2]int{4, 4}, Timeout: [2]int{600, 3000}, Race: true},
+			{Test: "TestC19_AtomicHammer", Shards: [2]int{2, 4}, Timeout: [2]int{600, 3000}},
 			{Test: "TestC19_StoreLinearizable", Shards: [2]int{2, 4}, Checks: [2]int{300, 4000}, Timeout: [2]int{600, 3000}, Race: true},
 		},
 	},
